@@ -4,7 +4,13 @@
   Finding KF-C12-1: the p-value formula is not a probability (values > 1, NaN) for small `D·N`, and the statistic is
   the Kolmogorov–Smirnov `D`, not Kuiper's `V`.
 
-  A. any carrier (hence IEEE doubles): `fpp_eq_branch` (decision table), `kuiper_statistic_is_ks`, `kuiper_p_wiring`
+  REPAIR (review T2, 2.1): `Kuiper.kuiper` now takes the statistic as scipy RETURNS it, `h * 1.0 / lcm` (exact mode of
+  `ks_2samp`, sizes ≤ 10000; `Kuiper.ks2sampStatistic`), not the raw ECDF difference `KS.statistic`; the two are equal
+  over ℝ (`kuiper_statistic_is_ks`, now a theorem and no longer `rfl`) but differ by an ulp at Float, exactly on the
+  lattice where the p-value formula is discontinuous.  Section H decides the branch on integers, ties included.
+
+  A. any carrier (hence IEEE doubles): `fpp_eq_branch` (decision table), `kuiper_statistic_lattice` (sizes ≤ 10000: the
+       statistic is literally `ofNat h / ofNat lcm`), `kuiper_statistic_large`, `kuiper_p_wiring` (p = fpp at the REPORTED D)
   B. ℝ, which branch for which `(D, N)`: `branch_small_iff`, `branch_mid_iff`, `branch_stephens_iff`,
        `branch_asymptotic_iff`, `branch_small_of_small_N` (for `N < 2` every `D ≤ 1` is in the first branch)
   C. ℝ, first branch (`D·N < 2`):
@@ -15,14 +21,24 @@
        `kuiper_p_neg_base`                 non-integral `N`, `D < 1/N`  ⇒  the fractional power of a NEGATIVE base is
                                            evaluated (NaN in IEEE arithmetic)                  (whole family)
        `kuiper_p_neg_base_iff`             in the first branch that happens exactly then
-  D. ℝ, second branch (`2 ≤ D·N < 3`): `fppMid_domain` (square root and both bases are in their domains)
-  E. detector level (ℝ): `kuiper_p_gt_one_witness` ([1,2,3,4] vs [1.5,…,4.5]: p = 3/2),
+  D. ℝ, second branch (`2 ≤ D·N < 3`): `fppMid_domain` (square root and both bases are in their domains),
+       `kuiper_p_mid_range_partial` (integral `N`: value ≤ 1; the half `0 ≤ p` is UNPROVED)
+  E. detector level (ℝ): `kuiper_statistic_is_ks` (reported statistic = `KS.statistic` for non-empty samples of any size),
+       `kuiper_statistic_eq_lattice`, `kuiper_p_wiring_real`, `kuiper_p_gt_one_witness` ([1,2,3,4] vs [1.5,…,4.5]: p = 3/2),
        `kuiper_p_nan_witness` ([1,2,3] vs [1.5,2.5,3.5], the input of KF-C12-1), `ks_statistic_self`,
        `kuiper_self_gt_one` (a sample of size 4j against itself: p > 1), `kuiper_self_neg_base` (odd size: NaN),
        `kuiper_statistic_eq_V_iff`, `kuiper_statistic_is_ks_witness`
   F. the search bounds of the model are never reached: `floorNat_spec`, `floorNat_stephens`, `arangeFrom1_spec`,
        `arange_complete`
   G. a pinned value of the third branch: `kuiper_p_separated` (`D = 1`, integral `N ≥ 3`: p = 0)
+  H. ℝ, the branch on the lattice as a decision on INTEGERS (`D = h/lcm`, `D·N = h·gcd/(n+m)`):
+       `kuiper_branch_lattice` (`branch (h/lcm) (n·m) (n+m) = branchLattice n m h`), `kuiper_branch_detector` (same for
+       actual samples + the p-value is that branch's formula), `lattice_DN_eq` (`D·N = c ⇔ h·gcd = c(n+m)`),
+       `kuiper_tie_one` (`D·N = 1`: first branch, base EXACTLY 0, p = 1 for integral `N ≥ 2`, `0` for `N = 1`),
+       `kuiper_tie_two` (`D·N = 2`: second branch), `kuiper_tie_three` (`D·N = 3`: third/fourth by the integer Stephens
+       condition), `onTie_iff` (Boolean oracle `onTie n m h` ⇔ `(D, N)` lies on a boundary of the formula),
+       witnesses on actual samples: `kuiper_tie_one_witness` (n=3, m=12), `kuiper_tie_two_witness` ([1..4] vs [5..8]:
+       (1, 0)), `kuiper_tie_three_witness` (the reviewer's `0..13` vs `+5.5`: double tie, asymptotic branch)
 -/
 import Mathlib.Tactic
 import Mathlib.Analysis.SpecialFunctions.Gamma.Basic
@@ -85,13 +101,28 @@ theorem branch_stephens_isInt (D : α) (num den : Nat) (h : branch D num den = .
         rcases hc with ⟨_, h1, _⟩ | ⟨_, h1, _⟩ <;> exact h1
       · cases h
 
-/-- **C12b (`kuiper_statistic_is_ks`)** the statistic `KuiperTest` reports is `ks_2samp(...).statistic`, the KS `D`
-(any carrier, any external factorial) -/
-theorem kuiper_statistic_is_ks (fact : α → α) (X Y : List α) : (kuiper fact X Y).1 = KS.statistic X Y := rfl
+/-- **C12b (`kuiper_statistic_lattice`)** any carrier (hence bit-for-bit at IEEE doubles): for sample sizes up to scipy's
+`MAX_AUTO_N = 10000` the statistic `KuiperTest` reports is scipy's RENORMALISED `h * 1.0 / lcm` (`_attempt_exact_2kssamp`),
+one division of two integers, not the raw ECDF difference -/
+theorem kuiper_statistic_lattice (fact : α → α) (X Y : List α) (hsz : max X.length Y.length ≤ maxAutoN) :
+    (kuiper fact X Y).1 = Num.ofNat (KS.hTwoSided X Y) / Num.ofNat (Nat.lcm X.length Y.length) := by
+  show ks2sampStatistic X Y = _
+  unfold ks2sampStatistic
+  rw [if_pos hsz]
 
-/-- … and the p-value is `_false_positive_probability(D, N)` at that `D` with `N = |X|·|Y| / (|X|+|Y|)` -/
+/-- … and above `MAX_AUTO_N` (asymptotic mode of `ks_2samp`) it is the raw difference `KS.statistic` (any carrier) -/
+theorem kuiper_statistic_large (fact : α → α) (X Y : List α) (hsz : maxAutoN < max X.length Y.length) :
+    (kuiper fact X Y).1 = KS.statistic X Y := by
+  show ks2sampStatistic X Y = _
+  unfold ks2sampStatistic
+  rw [if_neg (Nat.not_le.mpr hsz)]
+
+/-- **C12b (`kuiper_p_wiring`)** any carrier, any external factorial: the p-value is `_false_positive_probability(D, N)`
+at the REPORTED statistic `D` (the same double that is returned) with `N = |X|·|Y| / (|X|+|Y|)` -/
 theorem kuiper_p_wiring (fact : α → α) (X Y : List α) :
-    (kuiper fact X Y).2 = fpp fact (KS.statistic X Y) (X.length * Y.length) (X.length + Y.length) := rfl
+    (kuiper fact X Y).2 = fpp fact (kuiper fact X Y).1 (X.length * Y.length) (X.length + Y.length) := rfl
+
+example : max [(1 : Float), 2, 3].length [(4 : Float)].length ≤ maxAutoN := by decide
 
 end AnyCarrier
 
@@ -406,6 +437,66 @@ theorem fppMid_unfold (fact : ℝ → ℝ) (D : ℝ) (num den : ℕ) :
 
 example : (2 : ℝ) ≤ (1 / 2) * 4 ∧ (1 / 2 : ℝ) * 4 < 3 := by norm_num
 
+/-- for an integral `N` every `x ** (N − j)` with `x > 0` is positive (also for a negative exponent) -/
+theorem powN_int_pos (x : ℝ) (hx : 0 < x) (k j den : ℕ) : 0 < powN x (k * den) den j := by
+  unfold powN
+  rw [if_pos (isInt_mul k den)]
+  unfold ipow
+  simp only [one_eq, npow_eq]
+  split <;> positivity
+
+/-- **C12b (`kuiper_p_mid_range_partial`)** second branch, integral effective size `N = k ≥ 1`, `2 ≤ D·N < 3`: the branch is
+taken and the reported value is `≤ 1` (the subtracted term `(N−1)!·(b^(N−1)(1−a) − a^(N−1)(1−b)) / N^(N−2) / (b−a)` is
+non-negative: `0 ≤ b < a`, `b < 1`).
+PARTIAL: the other half `0 ≤ p` (Stephens' CDF value `≤ 1`, tight at `N = 3`, `D·N → 3`) is not proved for integral `N`
+(see the UNPROVED block at the end of the file), and for NON-integral `N` it is FALSE on reachable inputs: completely
+separated samples of sizes 5 and 7 (`D = 1`, `N = 35/12`, `D·N = 2.9167`) get the p-value `−5.03e−4`, sizes 4 and 11
+(`N = 44/15`) `−6.35e−4` (observed on /repo, `KuiperTest().fit(X=arange(5)); compare(X=arange(7)+10)`; the Float model
+returns the same values); the Γ-interpolated `factorial(N−1)` overshoots for `N` slightly below 3. -/
+theorem kuiper_p_mid_range_partial (fact : ℝ → ℝ) (hf : FactSpec fact) {den : ℕ} (hd : 0 < den) (k : ℕ) (hk : 1 ≤ k)
+    (D : ℝ) (h2 : 2 ≤ D * k) (h3 : D * k < 3) :
+    branch D (k * den) den = .mid ∧ fpp fact D (k * den) den ≤ 1 := by
+  have hk0 : (0 : ℝ) < k := by exact_mod_cast (by omega : 0 < k)
+  have hn : 0 < k * den := Nat.mul_pos (by omega) hd
+  have hbr : branch D (k * den) den = .mid := by
+    rw [branch_mid_iff hn hd, Nreal_mul k hd]; exact ⟨h2, h3⟩
+  refine ⟨hbr, ?_⟩
+  rw [fpp_eq_branch, hbr]
+  show fppMid fact D (k * den) den ≤ 1
+  rw [fppMid_unfold, Nreal_mul k hd]
+  obtain ⟨hs, ha, hb, hba⟩ := fppMid_domain (k : ℝ) D h2 h3
+  simp only [] at hs ha hb hba ⊢
+  set c : ℝ := -(-((k : ℝ) * D - 1) / 2) with hc
+  set r : ℝ := Real.sqrt ((-((k : ℝ) * D - 1) / 2) ^ 2 - ((k : ℝ) * D - 2) ^ 2 / 2) with hr
+  have hr0 : 0 < r := Real.sqrt_pos.mpr hs
+  have hc1 : c < 1 := by rw [hc]; nlinarith
+  have hb1 : c - r < 1 := by linarith
+  rw [powN_int _ k 1 hd hk, powN_int _ k 1 hd hk]
+  have hP := powN_int_pos (k : ℝ) hk0 k 2 den
+  have hF : 0 ≤ fact ((k : ℝ) - 1) := by
+    have : ((k : ℝ) - 1) = ((k - 1 : ℕ) : ℝ) := by
+      rw [Nat.cast_sub hk]; simp
+    rw [this, hf (k - 1)]; positivity
+  have hnum : (c - r) ^ (k - 1) * (1 - (c + r)) - (c + r) ^ (k - 1) * (1 - (c - r)) ≤ 0 := by
+    have hpow : (c - r) ^ (k - 1) ≤ (c + r) ^ (k - 1) := pow_le_pow_left₀ hb (by linarith) _
+    have hpb : 0 ≤ (c - r) ^ (k - 1) := pow_nonneg hb _
+    have hpa : 0 ≤ (c + r) ^ (k - 1) := pow_nonneg ha.le _
+    rcases le_or_gt (c + r) 1 with h1 | h1
+    · have : (c - r) ^ (k - 1) * (1 - (c + r)) ≤ (c + r) ^ (k - 1) * (1 - (c - r)) :=
+        mul_le_mul hpow (by linarith) (by linarith) hpa
+      linarith
+    · have e1 : (c - r) ^ (k - 1) * (1 - (c + r)) ≤ 0 := mul_nonpos_of_nonneg_of_nonpos hpb (by linarith)
+      have e2 : 0 ≤ (c + r) ^ (k - 1) * (1 - (c - r)) := mul_nonneg hpa (by linarith)
+      linarith
+  have hden : (c - r) - (c + r) < 0 := by linarith
+  have hq : 0 ≤ fact ((k : ℝ) - 1) * ((c - r) ^ (k - 1) * (1 - (c + r)) - (c + r) ^ (k - 1) * (1 - (c - r)))
+      / powN (k : ℝ) (k * den) den 2 / ((c - r) - (c + r)) :=
+    div_nonneg_of_nonpos (div_nonpos_of_nonpos_of_nonneg (mul_nonpos_of_nonneg_of_nonpos hF hnum) hP.le) hden.le
+  linarith
+
+example : fpp realFact (1 / 2) (4 * 16) 16 ≤ 1 :=
+  (kuiper_p_mid_range_partial realFact realFact_spec (by norm_num) 4 (by norm_num) (1 / 2) (by norm_num) (by norm_num)).2
+
 end Mid
 
 /-! ## E. detector level: `KuiperTest._kuiper` on actual samples (ℝ) -/
@@ -417,6 +508,32 @@ theorem foldl_max_zero {β : Type} (l : List β) :
   induction l with
   | nil => rfl
   | cons _ l ih => simpa using ih
+
+/-- **C12b (`kuiper_statistic_is_ks`)** over ℝ, for non-empty samples of ANY sizes: the statistic `KuiperTest` reports
+(scipy's renormalised lattice value `h / lcm(n, m)` up to `MAX_AUTO_N`, the raw difference above it) EQUALS
+`KS.statistic X Y = sup_z |F_X z − F_Y z|` (`C11.stat_eq_sup`), the Kolmogorov–Smirnov `D`.  (No longer `rfl`: the two
+expressions are different floating-point programs, equal as real numbers by `C11.stat_eq_lattice`.)  Non-emptiness
+excludes the junk values `c / 0 = 0`; `ks_2samp` raises for an empty sample. -/
+theorem kuiper_statistic_is_ks (fact : ℝ → ℝ) (X Y : List ℝ) (hX : X ≠ []) (hY : Y ≠ []) :
+    (kuiper fact X Y).1 = KS.statistic X Y := by
+  show ks2sampStatistic X Y = _
+  unfold ks2sampStatistic
+  split
+  · rw [C11.stat_eq_lattice X Y hX hY, ofNat_eq, ofNat_eq, C11.lcm_eq]
+  · rfl
+
+/-- the same, in lattice form, for all sizes: `D = h / lcm(n, m)` -/
+theorem kuiper_statistic_eq_lattice (fact : ℝ → ℝ) (X Y : List ℝ) (hX : X ≠ []) (hY : Y ≠ []) :
+    (kuiper fact X Y).1 = (hTwoSided X Y : ℝ) / (Nat.lcm X.length Y.length : ℝ) := by
+  rw [kuiper_statistic_is_ks fact X Y hX hY, C11.stat_eq_lattice X Y hX hY, C11.lcm_eq]
+
+/-- **C12b (`kuiper_p_wiring_real`)** over ℝ the p-value is `_false_positive_probability(D, N)` at the KS statistic -/
+theorem kuiper_p_wiring_real (fact : ℝ → ℝ) (X Y : List ℝ) (hX : X ≠ []) (hY : Y ≠ []) :
+    (kuiper fact X Y).2 = fpp fact (KS.statistic X Y) (X.length * Y.length) (X.length + Y.length) := by
+  rw [kuiper_p_wiring, kuiper_statistic_is_ks fact X Y hX hY]
+
+example : (kuiper realFact [(1 : ℝ), 2] [3]).1 = KS.statistic [(1 : ℝ), 2] [3] :=
+  kuiper_statistic_is_ks _ _ _ (by simp) (by simp)
 
 /-- a sample against itself has KS statistic 0 -/
 theorem ks_statistic_self (X : List ℝ) (hX : X ≠ []) : KS.statistic X X = 0 := by
@@ -432,7 +549,7 @@ theorem ks_statistic_self (X : List ℝ) (hX : X ≠ []) : KS.statistic X X = 0 
 theorem kuiper_self_gt_one (fact : ℝ → ℝ) (hf : FactSpec fact) (X : List ℝ) (j : ℕ) (hj : 1 ≤ j) (hlen : X.length = 4 * j) :
     1 < (kuiper fact X X).2 := by
   have hX : X ≠ [] := by intro h; rw [h] at hlen; simp at hlen; omega
-  rw [kuiper_p_wiring, ks_statistic_self X hX, hlen]
+  rw [kuiper_p_wiring_real fact X X hX hX, ks_statistic_self X hX, hlen]
   have : 4 * j * (4 * j) = (2 * j) * (4 * j + 4 * j) := by ring
   rw [this]
   exact kuiper_p_gt_one fact hf (by omega) (2 * j) (by omega) ⟨j, by ring⟩ 0 (by positivity)
@@ -453,7 +570,7 @@ theorem kuiper_self_neg_base (fact : ℝ → ℝ) (X : List ℝ) (hodd : Odd X.l
     have : Odd (n * n) := hodd.mul hodd
     exact (Nat.not_even_iff_odd.mpr this) (even_iff_two_dvd.mpr h2)
   have := kuiper_p_neg_base fact (Nat.mul_pos hn hn) (by omega : 0 < n + n) hni 0 (by simp)
-  rw [kuiper_p_wiring, ks_statistic_self X hX]
+  rw [kuiper_p_wiring_real fact X X hX hX, ks_statistic_self X hX]
   exact this
 
 /-- **C12b (`kuiper_p_gt_one_witness`)** KF-C12-1: reference `[1,2,3,4]`, test `[1.5,2.5,3.5,4.5]`: `D = 1/4`, `N = 2`,
@@ -465,24 +582,24 @@ theorem kuiper_p_gt_one_witness (fact : ℝ → ℝ) (hf : FactSpec fact) :
     simp [hTwoSided, devs, countLe]
     norm_num
   have hp : (kuiper fact [(1 : ℝ), 2, 3, 4] [3 / 2, 5 / 2, 7 / 2, 9 / 2]).2 = 3 / 2 := by
-    rw [kuiper_p_wiring, hs]
+    rw [kuiper_p_wiring_real _ _ _ (by simp) (by simp), hs]
     show fpp fact (1 / 4) (2 * 8) 8 = 3 / 2
     rw [small_of_lt_one (by norm_num) (by norm_num) _ (by rw [Nreal_mul 2 (by norm_num)]; norm_num),
       fppSmall_int fact hf (by norm_num) 2 (by norm_num)]
     norm_num [Nat.factorial]
-  exact Prod.ext (by rw [kuiper_statistic_is_ks, hs]) hp
+  exact Prod.ext (by rw [kuiper_statistic_is_ks _ _ _ (by simp) (by simp), hs]) hp
 
 /-- a sample of size 4 against itself: statistic 0, "p-value" 2 (observed on /repo) -/
 theorem kuiper_self_witness (fact : ℝ → ℝ) (hf : FactSpec fact) :
     kuiper fact [(1 : ℝ), 2, 3, 4] [1, 2, 3, 4] = (0, 2) := by
   have hs := ks_statistic_self [(1 : ℝ), 2, 3, 4] (by simp)
   have hp : (kuiper fact [(1 : ℝ), 2, 3, 4] [1, 2, 3, 4]).2 = 2 := by
-    rw [kuiper_p_wiring, hs]
+    rw [kuiper_p_wiring_real _ _ _ (by simp) (by simp), hs]
     show fpp fact 0 (2 * 8) 8 = 2
     rw [small_of_lt_one (by norm_num) (by norm_num) _ (by rw [Nreal_mul 2 (by norm_num)]; norm_num),
       fppSmall_int fact hf (by norm_num) 2 (by norm_num)]
     norm_num [Nat.factorial]
-  exact Prod.ext (by rw [kuiper_statistic_is_ks, hs]) hp
+  exact Prod.ext (by rw [kuiper_statistic_is_ks _ _ _ (by simp) (by simp), hs]) hp
 
 /-- **C12b (`kuiper_p_nan_witness`)** KF-C12-1, the input of the finding: reference `[1,2,3]`, test `[1.5,2.5,3.5]`:
 `D = 1/3`, `N = 9/6 = 1.5` (not an integer), first branch, base `D − 1/N = −1/3 < 0`, exponent `N − 1 = 1/2`: the
@@ -502,8 +619,8 @@ theorem kuiper_p_nan_witness (fact : ℝ → ℝ) :
   obtain ⟨h1, h2, _, h4⟩ := kuiper_p_neg_base fact (num := 9) (den := 6) (by norm_num) (by norm_num) (by decide)
     (1 / 3) (by rw [hN]; norm_num)
   have hb : (1 / 3 : ℝ) - 1 / Nreal 9 6 = -(1 / 3) := by rw [hN]; norm_num
-  refine ⟨by rw [kuiper_statistic_is_ks, hs], h1, h2, hb, by rw [hN]; norm_num, ?_⟩
-  rw [kuiper_p_wiring, hs]
+  refine ⟨by rw [kuiper_statistic_is_ks _ _ _ (by simp) (by simp), hs], h1, h2, hb, by rw [hN]; norm_num, ?_⟩
+  rw [kuiper_p_wiring_real _ _ _ (by simp) (by simp), hs]
   show fpp fact (1 / 3) 9 6 = _
   rw [h4, hb, hN]
   norm_num
@@ -523,7 +640,7 @@ theorem kuiper_statistic_eq_V_iff (fact : ℝ → ℝ) (ref test : List ℝ) (hr
   intro lcm
   have hl : 0 < lcm := by
     simp only [lcm]; exact_mod_cast lcm_pos' (List.length_pos_iff.mpr hr) (List.length_pos_iff.mpr ht)
-  rw [kuiper_statistic_is_ks, C11.stat_eq_lattice ref test hr ht]
+  rw [kuiper_statistic_is_ks fact ref test hr ht, C11.stat_eq_lattice ref test hr ht]
   constructor
   · apply div_le_div_of_nonneg_right _ hl.le
     exact_mod_cast (kuiper_ge_ks ref test).1
@@ -539,7 +656,7 @@ theorem kuiper_statistic_is_ks_witness (fact : ℝ → ℝ) :
     (kuiper fact [(1 : ℝ), 4] [2, 3]).1 = 1 / 2 ∧ (Tests2.kuiperV [(1 : ℝ), 4] [2, 3] : ℝ) / 2 = 1 := by
   obtain ⟨_, _, hv, hk, _⟩ := kuiper_ne_ks_witness
   constructor
-  · rw [kuiper_statistic_is_ks, C11.stat_eq_lattice _ _ (by simp) (by simp)]
+  · rw [kuiper_statistic_is_ks _ _ _ (by simp) (by simp), C11.stat_eq_lattice _ _ (by simp) (by simp)]
     have : hTwoSided [(1 : ℝ), 4] [2, 3] = 1 := hk
     rw [this]
     norm_num
@@ -689,6 +806,498 @@ example : fpp realFact 1 (3 * 12) 12 = 0 := (kuiper_p_separated realFact (by nor
 
 end Separated
 
+/-! ## H. the branch as a decision on INTEGERS (the statistic lives on the lattice `h / lcm(n, m)`), ties included -/
+section Lattice
+open Frouros.KS
+
+/-- the branch of `_false_positive_probability` for samples of sizes `n`, `m` whose lattice statistic is `h`
+(`D = h / lcm(n, m)`, `N = n·m/(n+m)`, hence `D·N = h·gcd(n, m)/(n+m)`), decided on natural numbers only -/
+def branchLattice (n m h : ℕ) : Branch :=
+  let g := Nat.gcd n m
+  let L := Nat.lcm n m
+  let s := n + m
+  let N := n * m / s
+  if h * g < 2 * s then .small
+  else if h * g < 3 * s then .mid
+  else if s ∣ n * m ∧ ((N % 2 = 0 ∧ L < 2 * h) ∨ (N % 2 = 1 ∧ N * L < 2 * N * h + L)) then .stephens
+  else .asymptotic
+
+/-- `D·N = h·gcd(n, m)/(n + m)` -/
+theorem lattice_DN {n m : ℕ} (hn : 0 < n) (hm : 0 < m) (h : ℕ) :
+    (h : ℝ) / (Nat.lcm n m : ℝ) * Nreal (n * m) (n + m) = ((h * Nat.gcd n m : ℕ) : ℝ) / ((n + m : ℕ) : ℝ) := by
+  have hL : (0 : ℝ) < (Nat.lcm n m : ℝ) := by exact_mod_cast Nat.lcm_pos hn hm
+  have hs : (0 : ℝ) < ((n + m : ℕ) : ℝ) := by exact_mod_cast (by omega : 0 < n + m)
+  have hgl : ((n * m : ℕ) : ℝ) = (Nat.gcd n m : ℝ) * (Nat.lcm n m : ℝ) := by
+    exact_mod_cast (Nat.gcd_mul_lcm n m).symm
+  unfold Nreal
+  rw [hgl]
+  push_cast
+  field_simp
+
+/-- `D·N < c  ⇔  h·gcd < c·(n+m)` -/
+theorem lattice_DN_lt {n m : ℕ} (hn : 0 < n) (hm : 0 < m) (h c : ℕ) :
+    (h : ℝ) / (Nat.lcm n m : ℝ) * Nreal (n * m) (n + m) < c ↔ h * Nat.gcd n m < c * (n + m) := by
+  have hs : (0 : ℝ) < ((n + m : ℕ) : ℝ) := by exact_mod_cast (by omega : 0 < n + m)
+  rw [lattice_DN hn hm, div_lt_iff₀ hs]
+  exact_mod_cast Iff.rfl
+
+/-- `c ≤ D·N  ⇔  c·(n+m) ≤ h·gcd` -/
+theorem lattice_DN_le {n m : ℕ} (hn : 0 < n) (hm : 0 < m) (h c : ℕ) :
+    (c : ℝ) ≤ (h : ℝ) / (Nat.lcm n m : ℝ) * Nreal (n * m) (n + m) ↔ c * (n + m) ≤ h * Nat.gcd n m := by
+  rw [← not_lt, lattice_DN_lt hn hm, Nat.not_lt]
+
+/-- **C12b (`lattice_DN_eq`)** the ties: `D·N = c  ⇔  h·gcd(n, m) = c·(n+m)` -/
+theorem lattice_DN_eq {n m : ℕ} (hn : 0 < n) (hm : 0 < m) (h c : ℕ) :
+    (h : ℝ) / (Nat.lcm n m : ℝ) * Nreal (n * m) (n + m) = c ↔ h * Nat.gcd n m = c * (n + m) := by
+  have hs : (0 : ℝ) < ((n + m : ℕ) : ℝ) := by exact_mod_cast (by omega : 0 < n + m)
+  rw [lattice_DN hn hm, div_eq_iff hs.ne']
+  exact_mod_cast Iff.rfl
+
+/-- the condition of line 102 for an integral `N = k` and a lattice `D = h/L`, on integers
+(`(k−1)/(2k) < h/L` is written `k·L < 2·k·h + L`: no truncated subtraction) -/
+theorem stephensCond_int {den : ℕ} (hd : 0 < den) (k L h : ℕ) (hL : 0 < L) :
+    StephensCond ((h : ℝ) / (L : ℝ)) (k * den) den ↔
+      ((k % 2 = 0 ∧ L < 2 * h) ∨ (k % 2 = 1 ∧ k * L < 2 * k * h + L)) := by
+  have hLR : (0 : ℝ) < (L : ℝ) := by exact_mod_cast hL
+  unfold StephensCond
+  rw [isEvenInt_mul k hd, isOddInt_mul k hd, Nreal_mul k hd]
+  simp only [beq_iff_eq]
+  have e1 : (1 / 2 < (h : ℝ) / (L : ℝ)) ↔ L < 2 * h := by
+    rw [lt_div_iff₀ hLR]
+    constructor
+    · intro hh
+      have : (L : ℝ) < 2 * (h : ℝ) := by linarith
+      exact_mod_cast this
+    · intro hh
+      have : (L : ℝ) < 2 * (h : ℝ) := by exact_mod_cast hh
+      linarith
+  have e2 : k % 2 = 1 → ((((k : ℝ) - 1) / (2 * (k : ℝ)) < (h : ℝ) / (L : ℝ)) ↔ k * L < 2 * k * h + L) := by
+    intro hk
+    have hk0 : (0 : ℝ) < (k : ℝ) := by exact_mod_cast (by omega : 0 < k)
+    rw [div_lt_div_iff₀ (by positivity) hLR]
+    constructor
+    · intro hh
+      have : (k : ℝ) * (L : ℝ) < 2 * (k : ℝ) * (h : ℝ) + (L : ℝ) := by linarith
+      exact_mod_cast this
+    · intro hh
+      have : (k : ℝ) * (L : ℝ) < 2 * (k : ℝ) * (h : ℝ) + (L : ℝ) := by exact_mod_cast hh
+      linarith
+  constructor
+  · rintro (⟨h1, h2⟩ | ⟨h1, h2⟩)
+    · exact Or.inl ⟨h2, e1.mp h1⟩
+    · exact Or.inr ⟨h2, (e2 h2).mp h1⟩
+  · rintro (⟨h1, h2⟩ | ⟨h1, h2⟩)
+    · exact Or.inl ⟨e1.mpr h2, h1⟩
+    · exact Or.inr ⟨(e2 h1).mpr h2, h1⟩
+
+/-- for a non-integral `N` the condition of line 102 is false (`N % 2` is neither 0 nor 1) -/
+theorem stephensCond_nonint (D : ℝ) {num den : ℕ} (hni : ¬ den ∣ num) : ¬ StephensCond D num den := by
+  have hi : isInt num den = false := by
+    rw [← Bool.not_eq_true, isInt_iff_dvd]; exact hni
+  unfold StephensCond isEvenInt isOddInt
+  simp [hi]
+
+/-- the condition of line 102 on the lattice, on integers -/
+theorem stephensCond_lattice {n m : ℕ} (hn : 0 < n) (hm : 0 < m) (h : ℕ) :
+    StephensCond ((h : ℝ) / (Nat.lcm n m : ℝ)) (n * m) (n + m) ↔
+      ((n + m) ∣ n * m ∧
+        ((n * m / (n + m) % 2 = 0 ∧ Nat.lcm n m < 2 * h) ∨
+         (n * m / (n + m) % 2 = 1 ∧ n * m / (n + m) * Nat.lcm n m < 2 * (n * m / (n + m)) * h + Nat.lcm n m))) := by
+  have hs : 0 < n + m := by omega
+  by_cases hdv : (n + m) ∣ n * m
+  · obtain ⟨k, hk⟩ := hdv
+    have hk' : n * m = k * (n + m) := by rw [hk, Nat.mul_comm]
+    have hq : n * m / (n + m) = k := by rw [hk', Nat.mul_div_cancel _ hs]
+    rw [hq, hk', stephensCond_int hs k _ h (Nat.lcm_pos hn hm)]
+    exact ⟨fun hc => ⟨Dvd.intro_left k rfl, hc⟩, fun hc => hc.2⟩
+  · exact ⟨fun hc => absurd hc (stephensCond_nonint _ hdv), fun hc => absurd hc.1 hdv⟩
+
+/-- **C12b (`kuiper_branch_lattice`)** over ℝ, for all sample sizes `n, m ≥ 1` and every lattice value `h` of the statistic
+(`D = h / lcm(n, m)`, which by `kuiper_statistic_eq_lattice` is what `KuiperTest` passes on): the branch of
+`_false_positive_probability(D, N = n·m/(n+m))` is `branchLattice n m h`, a decision on natural numbers:
+
+* `h·g < 2(n+m)`                     → first branch            (`D·N < 2`;  `g = gcd(n, m)`)
+* `2(n+m) ≤ h·g < 3(n+m)`            → second branch           (`2 ≤ D·N < 3`)
+* `3(n+m) ≤ h·g`, `(n+m) ∣ n·m`, and `lcm < 2h` (`N` even) resp. `N·lcm < 2·N·h + lcm` (`N` odd)  → Stephens' sum
+* otherwise                          → asymptotic series.
+
+All comparisons are the STRICT ones of the code, so the ties are decided: `h·g = 2(n+m)` is the second branch,
+`h·g = 3(n+m)` the third/fourth, `lcm = 2h` (`D = ½`) and `N·lcm = 2·N·h + lcm` (`D = (N−1)/(2N)`) the fourth. -/
+theorem kuiper_branch_lattice {n m : ℕ} (hn : 0 < n) (hm : 0 < m) (h : ℕ) :
+    branch ((h : ℝ) / (Nat.lcm n m : ℝ)) (n * m) (n + m) = branchLattice n m h := by
+  have hnm : 0 < n * m := Nat.mul_pos hn hm
+  have hs : 0 < n + m := by omega
+  have hlt := lattice_DN_lt hn hm h
+  have hle := lattice_DN_le hn hm h
+  unfold branchLattice
+  simp only []
+  split_ifs with h1 h2 h3
+  · exact (branch_small_iff hnm hs _).mpr (by exact_mod_cast (hlt 2).mpr h1)
+  · exact (branch_mid_iff hnm hs _).mpr
+      ⟨by exact_mod_cast (hle 2).mpr (Nat.not_lt.mp h1), by exact_mod_cast (hlt 3).mpr h2⟩
+  · exact (branch_stephens_iff hnm hs _).mpr
+      ⟨by exact_mod_cast (hle 3).mpr (Nat.not_lt.mp h2), (stephensCond_lattice hn hm h).mpr h3⟩
+  · exact (branch_asymptotic_iff hnm hs _).mpr
+      ⟨by exact_mod_cast (hle 3).mpr (Nat.not_lt.mp h2), fun hc => h3 ((stephensCond_lattice hn hm h).mp hc)⟩
+
+/-- **C12b (`kuiper_branch_detector`)** detector level, all non-empty real samples: the branch `KuiperTest._kuiper`
+takes is `branchLattice |X| |Y| (hTwoSided X Y)`, and the reported p-value is that branch's formula -/
+theorem kuiper_branch_detector (fact : ℝ → ℝ) (X Y : List ℝ) (hX : X ≠ []) (hY : Y ≠ []) :
+    branch (kuiper fact X Y).1 (X.length * Y.length) (X.length + Y.length)
+      = branchLattice X.length Y.length (hTwoSided X Y) ∧
+    (kuiper fact X Y).2 = match branchLattice X.length Y.length (hTwoSided X Y) with
+      | .small => fppSmall fact (kuiper fact X Y).1 (X.length * Y.length) (X.length + Y.length)
+      | .mid => fppMid fact (kuiper fact X Y).1 (X.length * Y.length) (X.length + Y.length)
+      | .stephens => fppStephens (kuiper fact X Y).1 (X.length * Y.length) (X.length + Y.length)
+      | .asymptotic => fppAsym (kuiper fact X Y).1 (X.length * Y.length) (X.length + Y.length) := by
+  have hb : branch (kuiper fact X Y).1 (X.length * Y.length) (X.length + Y.length)
+      = branchLattice X.length Y.length (hTwoSided X Y) := by
+    rw [kuiper_statistic_eq_lattice fact X Y hX hY]
+    exact kuiper_branch_lattice (List.length_pos_iff.mpr hX) (List.length_pos_iff.mpr hY) _
+  refine ⟨hb, ?_⟩
+  rw [kuiper_p_wiring, fpp_eq_branch, hb]
+
+/-- first branch, non-integral `N`: the value is literally `1 − factorial(N)·exp((N−1)·log(D − 1/N))` -/
+theorem fppSmall_nonint (fact : ℝ → ℝ) {num den : ℕ} (hni : ¬ den ∣ num) (D : ℝ) :
+    fppSmall fact D num den
+      = 1 - fact (Nreal num den) * Real.exp ((Nreal num den - 1) * Real.log (D - 1 / Nreal num den)) := by
+  have hi : isInt num den = false := by
+    rw [← Bool.not_eq_true, isInt_iff_dvd]; exact hni
+  unfold fppSmall powN
+  rw [hi]
+  simp only [Bool.false_eq_true, if_false, one_eq, ofNat_eq, exp_eq, log_eq, Nat.cast_one]
+  rfl
+
+/-- **C12b (`kuiper_tie_one`)** the tie `D·N = 1` (`h·gcd(n, m) = n + m`): the FIRST branch is taken and the base
+`D − 1/N` of the power is EXACTLY 0.
+* integral `N = k` (`n·m = k·(n+m)`): the power is the natural power `0^(k−1)`, the reported p-value is exactly `1` for
+  `k ≥ 2` (and `1 − 1!·0^0 = 0` for `k = 1`, i.e. `n = m = 2`, `D = 1`).  At `Float` too: `h/lcm` and `1.0/k` are the
+  correctly rounded values of the same rational, so the base is exactly `+0.0`.
+* non-integral `N`: the code evaluates `0 ** (N−1)` as a floating-point power, the model as `exp((N−1)·log 0)`; the last
+  conjunct exhibits that expression without evaluating `log 0` (`Real.log 0 = 0` is a junk value over ℝ; at `Float`
+  `log 0 = −inf` and the value is `1 − factorial(N)·0 = 1` for `N > 1`).  At `Float` the base `D − 1.0/N` is
+  `fl(h/lcm) − fl(1/fl(n·m/(n+m)))`, which is `0` or `±1 ulp` depending on the two roundings of `N`: `p = 1.0` or `NaN`
+  (observed on /repo: `n = 3, m = 12, h = 5`: `1.0`; `n = 11, m = 22, h = 3`: `NaN`).  After the repair of the
+  statistic the model evaluates the same float expression on the same operands as the code. -/
+theorem kuiper_tie_one (fact : ℝ → ℝ) {n m : ℕ} (hn : 0 < n) (hm : 0 < m) (h : ℕ)
+    (ht : h * Nat.gcd n m = n + m) :
+    let D : ℝ := (h : ℝ) / (Nat.lcm n m : ℝ)
+    branch D (n * m) (n + m) = .small ∧ D - 1 / Nreal (n * m) (n + m) = 0 ∧
+    (∀ k, n * m = k * (n + m) → FactSpec fact → fpp fact D (n * m) (n + m) = if k = 1 then 0 else 1) ∧
+    (¬ (n + m) ∣ n * m → fpp fact D (n * m) (n + m)
+        = 1 - fact (Nreal (n * m) (n + m)) * Real.exp ((Nreal (n * m) (n + m) - 1) * Real.log (D - 1 / Nreal (n * m) (n + m)))) := by
+  intro D
+  have hnm : 0 < n * m := Nat.mul_pos hn hm
+  have hs : 0 < n + m := by omega
+  have hN := Nreal_pos hnm hs
+  have hDN : D * Nreal (n * m) (n + m) = 1 := by
+    have := (lattice_DN_eq hn hm h 1).mpr (by omega)
+    exact_mod_cast this
+  have hbase : D - 1 / Nreal (n * m) (n + m) = 0 := by
+    rw [sub_eq_zero, eq_div_iff hN.ne']; exact hDN
+  have hsmall : D * Nreal (n * m) (n + m) < 2 := by rw [hDN]; norm_num
+  refine ⟨(branch_small_iff hnm hs D).mpr hsmall, hbase, ?_, ?_⟩
+  · intro k hk hf
+    have hk1 : 1 ≤ k := by
+      rcases Nat.eq_zero_or_pos k with h0 | h0
+      · rw [h0, Nat.zero_mul] at hk; omega
+      · exact h0
+    have hNk : Nreal (n * m) (n + m) = k := by rw [hk]; exact Nreal_mul k hs
+    rw [small_of_lt_one hnm hs D hsmall]
+    rw [hNk] at hbase
+    rw [hk, fppSmall_int fact hf hs k hk1, hbase]
+    by_cases h1 : k = 1
+    · subst h1; simp
+    · rw [if_neg h1, zero_pow (by omega)]; simp
+  · intro hni
+    rw [small_of_lt_one hnm hs D hsmall, fppSmall_nonint fact hni]
+
+/-- **C12b (`kuiper_tie_two`)** the tie `D·N = 2` (`h·gcd(n, m) = 2(n+m)`) belongs to the SECOND branch (`D < 2.0/N` is
+strict) -/
+theorem kuiper_tie_two {n m : ℕ} (hn : 0 < n) (hm : 0 < m) (h : ℕ) (ht : h * Nat.gcd n m = 2 * (n + m)) :
+    branch ((h : ℝ) / (Nat.lcm n m : ℝ)) (n * m) (n + m) = .mid := by
+  rw [kuiper_branch_lattice hn hm]
+  unfold branchLattice
+  simp only []
+  rw [if_neg (by omega), if_pos (by omega)]
+
+/-- **C12b (`kuiper_tie_three`)** the tie `D·N = 3` (`h·gcd(n, m) = 3(n+m)`) is NOT in the second branch (`D < 3.0/N` is
+strict): Stephens' sum or the asymptotic series, by the integer condition -/
+theorem kuiper_tie_three {n m : ℕ} (hn : 0 < n) (hm : 0 < m) (h : ℕ) (ht : h * Nat.gcd n m = 3 * (n + m)) :
+    branch ((h : ℝ) / (Nat.lcm n m : ℝ)) (n * m) (n + m) =
+      if (n + m) ∣ n * m ∧
+        ((n * m / (n + m) % 2 = 0 ∧ Nat.lcm n m < 2 * h) ∨
+         (n * m / (n + m) % 2 = 1 ∧ n * m / (n + m) * Nat.lcm n m < 2 * (n * m / (n + m)) * h + Nat.lcm n m))
+      then .stephens else .asymptotic := by
+  rw [kuiper_branch_lattice hn hm]
+  unfold branchLattice
+  simp only []
+  rw [if_neg (by omega), if_neg (by omega)]
+
+/-- the ties of the Stephens condition on the lattice: `D = ½ ⇔ lcm = 2h`; for an integral odd… any `k ≥ 1`:
+`D = (k−1)/(2k) ⇔ k·lcm = 2·k·h + lcm` -/
+theorem lattice_half_eq {L : ℕ} (hL : 0 < L) (h : ℕ) : (h : ℝ) / (L : ℝ) = 1 / 2 ↔ L = 2 * h := by
+  have hLR : (0 : ℝ) < (L : ℝ) := by exact_mod_cast hL
+  rw [div_eq_iff hLR.ne']
+  constructor
+  · intro hh
+    have : (L : ℝ) = 2 * (h : ℝ) := by linarith
+    exact_mod_cast this
+  · intro hh
+    have : (L : ℝ) = 2 * (h : ℝ) := by exact_mod_cast hh
+    linarith
+
+theorem lattice_odd_eq {L : ℕ} (hL : 0 < L) (h k : ℕ) (hk : 0 < k) :
+    (h : ℝ) / (L : ℝ) = ((k : ℝ) - 1) / (2 * (k : ℝ)) ↔ k * L = 2 * k * h + L := by
+  have hLR : (0 : ℝ) < (L : ℝ) := by exact_mod_cast hL
+  have hk0 : (0 : ℝ) < (k : ℝ) := by exact_mod_cast hk
+  rw [div_eq_div_iff hLR.ne' (by positivity)]
+  constructor
+  · intro hh
+    have : (k : ℝ) * (L : ℝ) = 2 * (k : ℝ) * (h : ℝ) + (L : ℝ) := by linarith
+    exact_mod_cast this
+  · intro hh
+    have : (k : ℝ) * (L : ℝ) = 2 * (k : ℝ) * (h : ℝ) + (L : ℝ) := by exact_mod_cast hh
+    linarith
+
+/-- the oracle for the harness: `(n, m, h)` sits on a discontinuity of the p-value formula -/
+def onTie (n m h : ℕ) : Bool :=
+  let g := Nat.gcd n m
+  let L := Nat.lcm n m
+  let s := n + m
+  let N := n * m / s
+  h * g == s || h * g == 2 * s || h * g == 3 * s ||
+    (decide (s ∣ n * m) && decide (3 * s ≤ h * g) &&
+      ((N % 2 == 0 && L == 2 * h) || (N % 2 == 1 && N * L == 2 * N * h + L)))
+
+/-- **C12b (`onTie_iff`)** `onTie n m h` says exactly that `(D, N) = (h/lcm, n·m/(n+m))` lies on one of the boundaries of
+`_false_positive_probability`: `D·N ∈ {1, 2, 3}`, or (beyond `D·N ≥ 3`) `D = ½` with `N` an even integer, or
+`D = (N−1)/(2N)` with `N` an odd integer -/
+theorem onTie_iff {n m : ℕ} (hn : 0 < n) (hm : 0 < m) (h : ℕ) :
+    onTie n m h = true ↔
+      (let D : ℝ := (h : ℝ) / (Nat.lcm n m : ℝ)
+       let N : ℝ := Nreal (n * m) (n + m)
+       D * N = 1 ∨ D * N = 2 ∨ D * N = 3 ∨
+       (3 ≤ D * N ∧ ((isEvenInt (n * m) (n + m) = true ∧ D = 1 / 2) ∨
+                     (isOddInt (n * m) (n + m) = true ∧ D = (N - 1) / (2 * N))))) := by
+  have hs : 0 < n + m := by omega
+  have hL := Nat.lcm_pos hn hm
+  have e1 := lattice_DN_eq hn hm h 1
+  have e2 := lattice_DN_eq hn hm h 2
+  have e3 := lattice_DN_eq hn hm h 3
+  have l3 := lattice_DN_le hn hm h 3
+  simp only [Nat.cast_one, Nat.cast_ofNat, Nat.one_mul] at e1 e2 e3 l3
+  simp only [e1, e2, e3, l3]
+  unfold onTie
+  simp only [Bool.or_eq_true, Bool.and_eq_true, beq_iff_eq, decide_eq_true_eq]
+  have key : (((n + m) ∣ n * m ∧ 3 * (n + m) ≤ h * Nat.gcd n m) ∧
+        ((n * m / (n + m) % 2 = 0 ∧ Nat.lcm n m = 2 * h) ∨
+         (n * m / (n + m) % 2 = 1 ∧ n * m / (n + m) * Nat.lcm n m = 2 * (n * m / (n + m)) * h + Nat.lcm n m))) ↔
+      (3 * (n + m) ≤ h * Nat.gcd n m ∧
+        ((isEvenInt (n * m) (n + m) = true ∧ (h : ℝ) / (Nat.lcm n m : ℝ) = 1 / 2) ∨
+         (isOddInt (n * m) (n + m) = true ∧
+            (h : ℝ) / (Nat.lcm n m : ℝ) = (Nreal (n * m) (n + m) - 1) / (2 * Nreal (n * m) (n + m))))) := by
+    by_cases hdv : (n + m) ∣ n * m
+    · obtain ⟨k, hk⟩ := hdv
+      have hk' : n * m = k * (n + m) := by rw [hk, Nat.mul_comm]
+      have hq : n * m / (n + m) = k := by rw [hk', Nat.mul_div_cancel _ hs]
+      have hk0 : 0 < k := by
+        rcases Nat.eq_zero_or_pos k with h0 | h0
+        · rw [h0, Nat.zero_mul] at hk'
+          have := Nat.mul_pos hn hm
+          omega
+        · exact h0
+      rw [hq, hk', isEvenInt_mul k hs, isOddInt_mul k hs, Nreal_mul k hs, lattice_half_eq hL,
+        lattice_odd_eq hL h k hk0]
+      simp only [beq_iff_eq]
+      constructor
+      · rintro ⟨⟨_, h3⟩, hc⟩
+        exact ⟨h3, hc.imp (fun a => ⟨a.1, a.2⟩) (fun a => ⟨a.1, a.2⟩)⟩
+      · rintro ⟨h3, hc⟩
+        exact ⟨⟨Dvd.intro_left k rfl, h3⟩, hc.imp (fun a => ⟨a.1, a.2⟩) (fun a => ⟨a.1, a.2⟩)⟩
+    · have hi : isInt (n * m) (n + m) = false := by
+        rw [← Bool.not_eq_true, isInt_iff_dvd]; exact hdv
+      constructor
+      · rintro ⟨⟨hd, _⟩, _⟩; exact absurd hd hdv
+      · rintro ⟨_, hc⟩
+        unfold isEvenInt isOddInt at hc
+        simp [hi] at hc
+  constructor
+  · rintro (((h1 | h1) | h1) | h1)
+    · exact Or.inl h1
+    · exact Or.inr (Or.inl h1)
+    · exact Or.inr (Or.inr (Or.inl h1))
+    · exact Or.inr (Or.inr (Or.inr (key.mp h1)))
+  · rintro (h1 | h1 | h1 | h1)
+    · exact Or.inl (Or.inl (Or.inl h1))
+    · exact Or.inl (Or.inl (Or.inr h1))
+    · exact Or.inl (Or.inr h1)
+    · exact Or.inr (key.mpr h1)
+
+/-! non-vacuity and the reviewer's inputs, on integers -/
+-- `ref = 0..13`, `test = ref + 5.5` (`n = m = 14`, `h = 6`): a DOUBLE tie, `D·N = 3` and `D = (N−1)/(2N) = 3/7`:
+-- fourth branch (code: `p = 0.44467`)
+example : branchLattice 14 14 6 = .asymptotic ∧ onTie 14 14 6 = true := by decide
+-- `n = 11`, `m = 22`, `h = 3`: `D·N = 1`, `N = 22/3` not an integer
+example : branchLattice 11 22 3 = .small ∧ onTie 11 22 3 = true ∧ ¬ (11 + 22) ∣ 11 * 22 := by decide
+-- `n = 3`, `m = 12`, `h = 5`: `D·N = 1`
+example : 5 * Nat.gcd 3 12 = 3 + 12 ∧ onTie 3 12 5 = true := by decide
+-- `n = m = 4`, `h = 4` (`D = 1`, `N = 2`): `D·N = 2`, second branch;  `n = m = 12`, `h = 6`: `D = ½`, `N = 6`, `D·N = 3`
+example : branchLattice 4 4 4 = .mid ∧ branchLattice 12 12 6 = .asymptotic ∧ branchLattice 12 12 7 = .stephens := by decide
+-- a generic point: not a tie
+example : onTie 10 15 7 = false ∧ branchLattice 10 15 7 = .small := by decide
+-- separated samples of sizes 5 and 7 (`h = lcm = 35`): second branch, not a tie (the input with the NEGATIVE p-value)
+example : branchLattice 5 7 35 = .mid ∧ onTie 5 7 35 = false := by decide
+
+/-! ### detector-level tie witnesses (actual samples) -/
+
+/-- `KS.devs` for samples of natural numbers (evaluated by `decide`) -/
+def devsNat (a b : List ℕ) : List ℤ :=
+  (a ++ b).map (fun z => (((a.filter (· ≤ z)).length : ℤ) * ((b.length / Nat.gcd a.length b.length : ℕ) : ℤ))
+    - (((b.filter (· ≤ z)).length : ℤ) * ((a.length / Nat.gcd a.length b.length : ℕ) : ℤ)))
+
+def hNat (a b : List ℕ) : ℕ := (devsNat a b).foldl (fun acc d => max acc d.natAbs) 0
+
+theorem countLe_map_nat (f : ℕ → ℝ) (hf : StrictMono f) (l : List ℕ) (z : ℕ) :
+    countLe (l.map f) (f z) = (l.filter (· ≤ z)).length := by
+  unfold countLe
+  rw [List.filter_map, List.length_map]
+  congr 1
+  apply List.filter_congr
+  intro x _
+  simp only [Function.comp]
+  by_cases h : x ≤ z
+  · simp [h, hf.le_iff_le]
+  · simp [h, hf.le_iff_le]
+
+/-- the lattice statistic of the images of two samples of naturals under a strictly increasing map is computed on the
+naturals (`h` only depends on the order type of the pooled sample) -/
+theorem hTwoSided_map (f : ℕ → ℝ) (hf : StrictMono f) (a b : List ℕ) :
+    hTwoSided (a.map f) (b.map f) = hNat a b := by
+  unfold hTwoSided hNat
+  congr 1
+  unfold devs devsNat
+  simp only [List.length_map]
+  rw [← List.map_append, List.map_map]
+  apply List.map_congr_left
+  intro z _
+  simp only [Function.comp, countLe_map_nat f hf]
+  push_cast
+  rfl
+
+theorem half_strictMono : StrictMono (fun k : ℕ => (k : ℝ) / 2) := by
+  intro a b h
+  have : (a : ℝ) < b := by exact_mod_cast h
+  simp only; linarith
+
+/-- **C12b (`kuiper_tie_three_witness`)** the reviewer's input: `ref = 0, 1, …, 13`, `test = ref + 5.5` (`n = m = 14`,
+`N = 7`): `h = 6`, `D = 3/7`, a DOUBLE tie `D·N = 3` and `D = (N−1)/(2N)`.  Neither `D < 3.0/N` nor
+`D > (N−1)/(2N)` holds: the code (and now the model) evaluates the ASYMPTOTIC series (observed on /repo: `p = 0.44467`;
+the model before the repair passed `fl(max(cdf1 − cdf2)) = 0.4285714285714286 > fl(3/7)` and took Stephens' branch: `0.46986`). -/
+theorem kuiper_tie_three_witness (fact : ℝ → ℝ) :
+    let X : List ℝ := [0, 1, 2, 3, 4, 5, 6, 7, 8, 9, 10, 11, 12, 13]
+    let Y : List ℝ := [11 / 2, 13 / 2, 15 / 2, 17 / 2, 19 / 2, 21 / 2, 23 / 2, 25 / 2, 27 / 2, 29 / 2, 31 / 2, 33 / 2,
+      35 / 2, 37 / 2]
+    hTwoSided X Y = 6 ∧ (kuiper fact X Y).1 = 3 / 7 ∧
+    (3 / 7 : ℝ) * Nreal (14 * 14) (14 + 14) = 3 ∧
+    (3 / 7 : ℝ) = (Nreal (14 * 14) (14 + 14) - 1) / (2 * Nreal (14 * 14) (14 + 14)) ∧
+    branch (3 / 7 : ℝ) (14 * 14) (14 + 14) = .asymptotic ∧
+    (kuiper fact X Y).2 = fppAsym (3 / 7 : ℝ) (14 * 14) (14 + 14) := by
+  intro X Y
+  have hX : X ≠ [] := by simp [X]
+  have hY : Y ≠ [] := by simp [Y]
+  have hh : hTwoSided X Y = 6 := by
+    have h1 : X = [0, 2, 4, 6, 8, 10, 12, 14, 16, 18, 20, 22, 24, 26].map (fun k : ℕ => (k : ℝ) / 2) := by
+      simp only [X, List.map]; norm_num
+    have h2 : Y = [11, 13, 15, 17, 19, 21, 23, 25, 27, 29, 31, 33, 35, 37].map (fun k : ℕ => (k : ℝ) / 2) := by
+      simp only [Y, List.map]; norm_num
+    rw [h1, h2, hTwoSided_map _ half_strictMono]
+    decide
+  have hst : (kuiper fact X Y).1 = 3 / 7 := by
+    rw [kuiper_statistic_eq_lattice fact X Y hX hY, hh]
+    have : Nat.lcm X.length Y.length = 14 := by decide
+    rw [this]; norm_num
+  have hN : Nreal (14 * 14) (14 + 14) = 7 := by unfold Nreal; norm_num
+  obtain ⟨hb, hp⟩ := kuiper_branch_detector fact X Y hX hY
+  rw [hh] at hb hp
+  have hbl : branchLattice X.length Y.length 6 = .asymptotic := by decide
+  rw [hbl] at hb hp
+  rw [hst] at hb hp
+  exact ⟨hh, hst, by rw [hN]; norm_num, by rw [hN]; norm_num, hb, hp⟩
+
+/-- **C12b (`kuiper_tie_two_witness`)** the tie `D·N = 2` on actual samples: `[1,2,3,4]` vs `[5,6,7,8]` (`D = 1`, `N = 2`):
+the SECOND branch is taken (`1 < 2.0/2` is false) with `k = −½`, `r = ½`, `a = 1`, `b = 0`, and the reported p-value is
+exactly `0` (observed on /repo: `(1.0, 0.0)`) -/
+theorem kuiper_tie_two_witness (fact : ℝ → ℝ) (hf : FactSpec fact) :
+    branch (1 : ℝ) (2 * 8) 8 = .mid ∧ kuiper fact [(1 : ℝ), 2, 3, 4] [5, 6, 7, 8] = (1, 0) := by
+  have hX : [(1 : ℝ), 2, 3, 4] ≠ [] := by simp
+  have hY : [(5 : ℝ), 6, 7, 8] ≠ [] := by simp
+  have hh : hTwoSided [(1 : ℝ), 2, 3, 4] [5, 6, 7, 8] = 4 := by
+    have h1 : [(1 : ℝ), 2, 3, 4] = [2, 4, 6, 8].map (fun k : ℕ => (k : ℝ) / 2) := by
+      simp only [List.map]; norm_num
+    have h2 : [(5 : ℝ), 6, 7, 8] = [10, 12, 14, 16].map (fun k : ℕ => (k : ℝ) / 2) := by
+      simp only [List.map]; norm_num
+    rw [h1, h2, hTwoSided_map _ half_strictMono]
+    decide
+  have hst : (kuiper fact [(1 : ℝ), 2, 3, 4] [5, 6, 7, 8]).1 = 1 := by
+    rw [kuiper_statistic_eq_lattice fact _ _ hX hY, hh]
+    have : Nat.lcm [(1 : ℝ), 2, 3, 4].length [(5 : ℝ), 6, 7, 8].length = 4 := by decide
+    rw [this]; norm_num
+  have hbr : branch (1 : ℝ) (2 * 8) 8 = .mid := by
+    rw [branch_mid_iff (by norm_num) (by norm_num), Nreal_mul 2 (by norm_num)]; norm_num
+  refine ⟨hbr, Prod.ext hst ?_⟩
+  rw [kuiper_p_wiring, hst]
+  show fpp fact 1 (2 * 8) 8 = 0
+  rw [fpp_eq_branch, hbr]
+  show fppMid fact 1 (2 * 8) 8 = 0
+  rw [fppMid_unfold, Nreal_mul 2 (by norm_num)]
+  simp only [powN_int _ 2 1 (by norm_num : 0 < 8) (by norm_num), powN_int _ 2 2 (by norm_num : 0 < 8) (by norm_num)]
+  have hsq : Real.sqrt ((-(((2 : ℕ) : ℝ) * 1 - 1) / 2) ^ 2 - (((2 : ℕ) : ℝ) * 1 - 2) ^ 2 / 2) = 1 / 2 := by
+    rw [show ((-(((2 : ℕ) : ℝ) * 1 - 1) / 2) ^ 2 - (((2 : ℕ) : ℝ) * 1 - 2) ^ 2 / 2) = (1 / 2 : ℝ) ^ 2 by norm_num]
+    exact Real.sqrt_sq (by norm_num)
+  have hf1 : fact (((2 : ℕ) : ℝ) - 1) = 1 := by
+    have := hf 1
+    rw [show (((2 : ℕ) : ℝ) - 1) = ((1 : ℕ) : ℝ) by norm_num, this]; norm_num
+  rw [hsq, hf1]
+  norm_num
+
+/-- **C12b (`kuiper_tie_one_witness`)** the tie `D·N = 1` with a non-integral `N` on actual samples:
+`[5.5, 6.5, 12.5]` vs `[1, …, 12]` (`n = 3`, `m = 12`, `N = 12/5`): `h = 5`, `D = 5/12 = 1/N`, first branch, and the
+base of the fractional power is exactly `0` (observed on /repo: `(0.4166666666666667, 1.0)`; with the raw-difference
+statistic the base is `−5.6e−17` and the value NaN) -/
+theorem kuiper_tie_one_witness (fact : ℝ → ℝ) :
+    let X : List ℝ := [11 / 2, 13 / 2, 25 / 2]
+    let Y : List ℝ := [1, 2, 3, 4, 5, 6, 7, 8, 9, 10, 11, 12]
+    hTwoSided X Y = 5 ∧ (kuiper fact X Y).1 = 5 / 12 ∧ Nreal (3 * 12) (3 + 12) = 12 / 5 ∧
+    branch (5 / 12 : ℝ) (3 * 12) (3 + 12) = .small ∧ isInt (3 * 12) (3 + 12) = false ∧
+    (5 / 12 : ℝ) - 1 / Nreal (3 * 12) (3 + 12) = 0 ∧
+    (kuiper fact X Y).2 = 1 - fact (Nreal (3 * 12) (3 + 12)) *
+      Real.exp ((Nreal (3 * 12) (3 + 12) - 1) * Real.log ((5 / 12 : ℝ) - 1 / Nreal (3 * 12) (3 + 12))) := by
+  intro X Y
+  have hX : X ≠ [] := by simp [X]
+  have hY : Y ≠ [] := by simp [Y]
+  have hh : hTwoSided X Y = 5 := by
+    have h1 : X = [11, 13, 25].map (fun k : ℕ => (k : ℝ) / 2) := by
+      simp only [X, List.map]; norm_num
+    have h2 : Y = [2, 4, 6, 8, 10, 12, 14, 16, 18, 20, 22, 24].map (fun k : ℕ => (k : ℝ) / 2) := by
+      simp only [Y, List.map]; norm_num
+    rw [h1, h2, hTwoSided_map _ half_strictMono]
+    decide
+  have hst : (kuiper fact X Y).1 = 5 / 12 := by
+    rw [kuiper_statistic_eq_lattice fact X Y hX hY, hh]
+    have : Nat.lcm X.length Y.length = 12 := by decide
+    rw [this]; norm_num
+  obtain ⟨t1, t2, _, t4⟩ := kuiper_tie_one fact (n := 3) (m := 12) (by norm_num) (by norm_num) 5 (by decide)
+  have hL : ((5 : ℕ) : ℝ) / ((Nat.lcm 3 12 : ℕ) : ℝ) = 5 / 12 := by
+    have : Nat.lcm 3 12 = 12 := by decide
+    rw [this]; norm_num
+  simp only [hL] at t1 t2 t4
+  refine ⟨hh, hst, by unfold Nreal; norm_num, t1, by decide, t2, ?_⟩
+  rw [kuiper_p_wiring, hst]
+  exact t4 (by decide)
+
+end Lattice
+
 /- UNPROVED (full statements; not attempted in the time box):
    (1) range on the rest of the first branch:
        theorem kuiper_p_small_range (hn : 0 < num) (hd : 0 < den) (D : ℝ) (h1 : 1 ≤ D * Nreal num den)
@@ -696,6 +1305,20 @@ end Separated
            0 ≤ fpp realFact D num den ∧ fpp realFact D num den ≤ 1
        (non-integral N: needs Γ(N+1) ≤ N^(N-1), i.e. bounds on `Real.Gamma` between integers; for N < 1 the exponent
        N − 1 is negative and the statement is FALSE near D = 1/N: the power blows up and the value is −∞-wards.)
+   (1b) the missing half of `kuiper_p_mid_range_partial`, integral N:
+       theorem kuiper_p_mid_range (fact) (hf : FactSpec fact) (hd : 0 < den) (k : ℕ) (hk : 1 ≤ k) (D : ℝ)
+           (h2 : 2 ≤ D * k) (h3 : D * k < 3) : 0 ≤ fpp fact D (k * den) den
+       (`0 ≤ p` says Stephens' exact CDF `(N−1)!·(h_{N−2}(a,b) − ab·h_{N−3}(a,b)) / N^(N−2)` (`h_j` the complete homogeneous
+       polynomial, `a + b = D·N − 1`, `ab = (D·N − 2)²/2`) is ≤ 1; it is TIGHT at N = 3, D·N → 3, so no crude bound works:
+       it needs monotonicity in `D·N` and `(N−1)!·(a^(N−1) + b^(N−1)) ≤ 2·N^(N−2)` at `a, b = 1 ± 1/√2`.)
+   (1c) NEGATIVE witness, non-integral N (extends KF-C12-1; observed on /repo and on the Float model, not proved over ℝ:
+       it needs 5-digit enclosures of `Real.Gamma (35/12)` and of three real powers):
+       theorem kuiper_p_negative_witness :
+           (kuiper realFact [(0 : ℝ), 1, 2, 3, 4] [10, 11, 12, 13, 14, 15, 16]).1 = 1 ∧
+           (kuiper realFact [(0 : ℝ), 1, 2, 3, 4] [10, 11, 12, 13, 14, 15, 16]).2 < 0
+       (`D = 1`, `N = 35/12`, second branch (`kuiper_branch_lattice`: `branchLattice 5 7 35 = .mid`); code: −5.0276e−4; also
+       n = 4, m = 11: −6.3477e−4.  Of the 10 591 lattice points `(n, m, h)`, `n, m ≤ 25`, of the second branch these four
+       (`{5,7}`, `{4,11}`, `h = lcm`) are the only ones outside [0, 1].)
    (2) range on the other branches:
        theorem kuiper_p_range (hn : 0 < num) (hd : 0 < den) (D : ℝ) (h2 : 2 ≤ D * Nreal num den) (hD : D ≤ 1) :
            0 ≤ fpp realFact D num den ∧ fpp realFact D num den ≤ 1
@@ -708,7 +1331,8 @@ section axioms
 open Frouros.C12
 #print axioms fpp_eq_branch
 #print axioms branch_stephens_isInt
-#print axioms kuiper_statistic_is_ks
+#print axioms kuiper_statistic_lattice
+#print axioms kuiper_statistic_large
 #print axioms kuiper_p_wiring
 #print axioms branch_small_iff
 #print axioms branch_mid_iff
@@ -724,6 +1348,10 @@ open Frouros.C12
 #print axioms kuiper_p_neg_base_iff
 #print axioms fppMid_domain
 #print axioms fppMid_unfold
+#print axioms kuiper_p_mid_range_partial
+#print axioms kuiper_statistic_is_ks
+#print axioms kuiper_statistic_eq_lattice
+#print axioms kuiper_p_wiring_real
 #print axioms ks_statistic_self
 #print axioms kuiper_self_gt_one
 #print axioms kuiper_self_neg_base
@@ -737,4 +1365,17 @@ open Frouros.C12
 #print axioms arangeFrom1_spec
 #print axioms arange_complete
 #print axioms kuiper_p_separated
+#print axioms lattice_DN
+#print axioms lattice_DN_eq
+#print axioms stephensCond_lattice
+#print axioms kuiper_branch_lattice
+#print axioms kuiper_branch_detector
+#print axioms kuiper_tie_one
+#print axioms kuiper_tie_two
+#print axioms kuiper_tie_three
+#print axioms onTie_iff
+#print axioms hTwoSided_map
+#print axioms kuiper_tie_one_witness
+#print axioms kuiper_tie_two_witness
+#print axioms kuiper_tie_three_witness
 end axioms
